@@ -284,7 +284,8 @@ func c19Eval(raw json.RawMessage) (interface{}, error) {
 //        "toggles":[{"at":opIndex,"action":"disable|enable|enable_lazy|disable_lazy|enable_incr|stop_incr|
 //                     rebalance_all|force_batch|rebalance_attr"}],
 //        "ops":[{"op":"set","name":..,"type":"i32|f64|str|i32s|f64s","i":..,"f":bits,"s":..,"is":[..],"fs":[bits..]},
-//               {"op":"del","name":..}]}
+//               {"op":"del","name":..},
+//               {"op":"reopen"}   Close + OpenForWrite (WriteOptions of the configuration) + OpenDataset]}
 // result: {"ops":["ok"|"err"...],"errs":[messages],"toggles":[...],"close":"ok|err",
 //          "dump":[{"name","class","size","dims","data"(hex),"value"}...] | "open_err"}
 // ---------------------------------------------------------------------------------------------
@@ -344,6 +345,18 @@ func c19Options(c c19Config) []interface{} {
 		return []interface{}{hdf5.WithSmartRebalancing(
 			hdf5.SmartAutoDetect(c.AutoDetect), hdf5.SmartAutoSwitch(c.AutoSwitch),
 			hdf5.SmartMinFileSize(c.MinSize), hdf5.SmartAllowedModes(c.Allowed...))}
+	default:
+		return nil
+	}
+}
+
+// c19ReopenOptions: what of a configuration can be given to OpenForWrite (WriteOptions only).
+func c19ReopenOptions(c c19Config) []hdf5.WriteOption {
+	switch c.Kind {
+	case "none":
+		return []hdf5.WriteOption{hdf5.WithBTreeRebalancing(false)}
+	case "immediate":
+		return []hdf5.WriteOption{hdf5.WithBTreeRebalancing(true)}
 	default:
 		return nil
 	}
@@ -497,9 +510,39 @@ func c19Cfg(raw json.RawMessage) (interface{}, error) {
 			togs = append(togs, a+":"+okErr(c19Toggle1(fw, ds, c.Config, a)))
 		}
 		var e error
-		if o.Op == "del" {
+		switch {
+		case o.Op == "reopen":
+			// session boundary (part of the HISTORY, the same under every configuration): Close, then
+			// OpenForWrite with the WriteOptions of the configuration (OpenForWrite takes no FileWriterOption)
+			// and OpenDataset: the following calls go through the cached-header paths
+			// (writeAttributeWithCachedHeader / deleteAttributeWithCachedHeader).
+			if e = fw.Close(); e == nil {
+				var nfw *hdf5.FileWriter
+				if nfw, e = hdf5.OpenForWrite(c.Path, hdf5.OpenReadWrite, c19ReopenOptions(c.Config)...); e == nil {
+					var nds *hdf5.DatasetWriter
+					if nds, e = nfw.OpenDataset("/d"); e == nil {
+						fw, ds = nfw, nds
+					} else {
+						_ = nfw.Close()
+					}
+				}
+			}
+			if e != nil {
+				// no writer any more: report and stop (the same happens under every configuration)
+				ops = append(ops, "err")
+				errs = append(errs, fmt.Sprintf("%d:reopen: %v", i, e))
+				res := map[string]interface{}{"ops": ops, "errs": errs, "toggles": togs, "write": okErr(werr), "close": "reopen-failed"}
+				dump, derr := c19DumpAttrs(c.Path)
+				if derr != "" {
+					res["open_err"] = derr
+				} else {
+					res["dump"] = dump
+				}
+				return res, nil
+			}
+		case o.Op == "del":
 			e = ds.DeleteAttribute(o.Name)
-		} else {
+		default:
 			e = ds.WriteAttribute(o.Name, c19Value(o))
 		}
 		ops = append(ops, okErr(e))
